@@ -75,8 +75,8 @@ S4Ref(m, cfg) == IF /\ m.vn = 4 /\ S4CmdOK(m, cfg)
 (* SOCKS5 (RFC 1928): VER=5, NMETHODS, METHODS.  Filter: auth_methods      *)
 (* (default 0, 1, 2): every offered method must be among them.             *)
 (***************************************************************************)
-S5Msgs == [ver : {5, 4}, methods : {<<>>, <<0>>, <<2>>, <<0, 2>>, <<1, 3>>, <<128>>, <<0, 1, 2>>}, declared : {"exact", "more", "less"}]
-S5Cfgs == [auth_methods : {<<>>, <<0>>, <<0, 2>>, <<128>>}]
+S5Msgs == [ver : {5, 4}, methods : {<<>>, <<0>>, <<2>>, <<0, 2>>, <<2, 2>>, <<1, 3>>, <<128>>, <<0, 1, 2>>, <<2, 2, 2>>}, declared : {"exact", "more", "less"}]
+S5Cfgs == [auth_methods : {<<>>, <<0>>, <<2>>, <<0, 2>>, <<128>>}]
 S5Allowed(cfg) == IF cfg.auth_methods = <<>> THEN {0, 1, 2} ELSE Range(cfg.auth_methods)
 \* "more": NMETHODS announces one more method than follow (the message is incomplete);
 \* "less": NMETHODS announces one fewer (the last byte is trailing data)
@@ -195,14 +195,16 @@ DNSRef(m, cfg, net) ==
 (***************************************************************************)
 RDPMsgs == [ver : {3, 2}, len : {"exact", "plus1", "minus1"},
             cookie : {"none", "hash_user", "hash_other", "token_in_3389", "token_in_1234", "token_out_3389", "custom", "custom_cr"},
-            neg : {"none", "ssl", "hybrid_ssl", "hybrid_only", "badtype"}, extra : {0, 1}]
+            neg : {"none", "ssl", "hybrid_ssl", "hybrid_only", "badtype", "corr", "corr_short", "corr_missing", "corr_badid"}, extra : {0}]
 RDPCfgs == [cookie_hash : {"", "user"}, cookie_ips : {<<>>, <<"10.0.0.0/8">>}, cookie_ports : {<<>>, <<3389>>}]
 RDPRef(m, cfg) ==
   LET isToken == m.cookie \in {"token_in_3389", "token_in_1234", "token_out_3389"}
       cookieOK == /\ (cfg.cookie_hash = "user" => m.cookie = "hash_user")
                   /\ (cfg.cookie_ips # <<>> => m.cookie \in {"token_in_3389", "token_in_1234"})
                   /\ (cfg.cookie_ports # <<>> => m.cookie \in {"token_in_3389", "token_out_3389"})
-      negOK == m.neg \in {"none", "ssl", "hybrid_ssl"} IN
+      \* "corr": RDP_NEG_REQ with CORRELATION_INFO_PRESENT followed by a 36-byte RDP_NEG_CORRELATION_INFO;
+      \* "corr_short" / "corr_missing": the block is truncated / absent; "corr_badid": identifier begins with 0x00
+      negOK == m.neg \in {"none", "ssl", "hybrid_ssl", "corr"} IN
   IF /\ m.ver = 3 /\ m.len = "exact" /\ m.extra = 0
      /\ (m.cookie # "none" \/ m.neg # "none")
      /\ m.cookie # "custom_cr"                 \* text ending in a bare CR is neither a cookie line nor a negotiation request
@@ -217,8 +219,23 @@ RDPRef(m, cfg) ==
 HTTPMsgs == [method : {"GET", "POST"}, path : {"/", "/api/x", "/other"}, version : {"HTTP/1.1", "HTTP/1.0", "HTTQ/1.1"},
              eol : {"crlf", "lf"}, host : {"example.com", "other.org", ""}, xtest : BOOLEAN, complete : BOOLEAN]
 HTTPCfgs == [filter : {"none", "host", "path", "method", "header"}]
+\* lines that are no request line: n bytes then LF or CR LF (n around the matcher's own bounds)
+HTTPJunk == [junk : 0..24, eol : {"crlf", "lf"}]
+\* HTTP/2 with prior knowledge (RFC 9113 3.4): the preface "PRI * HTTP/2.0 CRLF CRLF SM CRLF CRLF",
+\* SETTINGS, then HEADERS carrying the request; "bigframe": a frame header announcing 16 MiB
+HTTP2Msgs == [h2 : {"request", "bigframe", "preface_only"}, host : {"example.com", "other.org"}, path : {"/api/x", "/"}, method : {"GET", "POST"}]
 HTTPRef(m, cfg) ==
-  IF m.version = "HTTQ/1.1" THEN "N"
+  IF "junk" \in DOMAIN m THEN "N"
+  ELSE IF "h2" \in DOMAIN m THEN
+       (IF m.h2 = "preface_only" THEN "M"
+        ELSE IF m.h2 = "bigframe" THEN "X"
+        ELSE IF CASE cfg.filter = "none" -> TRUE
+                  [] cfg.filter = "host" -> m.host = "example.com"
+                  [] cfg.filter = "path" -> m.path = "/api/x"
+                  [] cfg.filter = "method" -> m.method = "POST"
+                  [] cfg.filter = "header" -> FALSE
+             THEN "Y" ELSE "N")
+  ELSE IF m.version = "HTTQ/1.1" THEN "N"
   ELSE IF ~m.complete THEN "M"
   ELSE IF CASE cfg.filter = "none" -> TRUE
             [] cfg.filter = "host" -> m.host = "example.com"
@@ -226,6 +243,22 @@ HTTPRef(m, cfg) ==
             [] cfg.filter = "method" -> m.method = "POST"
             [] cfg.filter = "header" -> m.xtest
        THEN "Y" ELSE "N"
+
+(***************************************************************************)
+(* Winbox (MikroTik) authentication message: chunks [length, type, bytes]; *)
+(* the first chunk has type 6, continuation chunks type 255 and every      *)
+(* chunk but the last is 255 bytes long; the content is                    *)
+(* username ["+r" for RoMON] NUL public-key(32) parity(0|1).  Filters:     *)
+(* modes (standard / romon), username.                                     *)
+(***************************************************************************)
+WBMsgs == { m \in [ulen : {1, 5, 219, 221, 222, 255}, romon : BOOLEAN, parity : {0, 1, 2}, type : {6, 5}, delim : {"ok", "missing", "last"}] : m.romon => m.ulen <= 222 }
+WBCfgs == [modes : {<<>>, <<"standard">>, <<"romon">>}, username : {"", "admin"}]
+\* the username is "admin" when ulen = 5, otherwise ulen letters; RoMON appends "+r" (part of the length)
+WBRef(m, cfg) ==
+  IF /\ m.type = 6 /\ m.delim = "ok" /\ m.parity <= 1
+     /\ (cfg.modes = <<>> \/ (m.romon /\ "romon" \in Range(cfg.modes)) \/ (~m.romon /\ "standard" \in Range(cfg.modes)))
+     /\ (cfg.username = "" \/ m.ulen = 5)
+  THEN "Y" ELSE "N"
 
 (***************************************************************************)
 (* TLS record framing (RFC 8446 5.1) in front of the ClientHello: a record *)
@@ -259,6 +292,9 @@ Vectors(p) ==
                                                  c \in DNSCfgs, n \in {"tcp", "udp"}, t \in {0} }
     [] p = "rdp"      -> { Vec(p, "tcp", c, m, 0) : m \in { x \in RDPMsgs : Tier # "quick" \/ x.len # "minus1" }, c \in RDPCfgs }
     [] p = "http"     -> { Vec(p, "tcp", c, m, 0) : m \in HTTPMsgs, c \in HTTPCfgs }
+                         \cup { Vec(p, "tcp", [filter |-> "none"], m, 0) : m \in HTTPJunk }
+                         \cup { Vec(p, "tcp", c, m, 0) : m \in HTTP2Msgs, c \in HTTPCfgs }
+    [] p = "winbox"   -> { Vec(p, "tcp", c, m, t) : m \in WBMsgs, c \in WBCfgs, t \in {0} }
     [] p = "tls"      -> { Vec(p, "tcp", c, m, t) : m \in TLSMsgs, c \in TLSCfgs, t \in {0, 9} }
     [] OTHER -> {}
 
@@ -277,6 +313,7 @@ Ref(v) ==
     [] v.proto = "rdp" -> RDPRef(v.msg, v.cfg)
     [] v.proto = "http" -> HTTPRef(v.msg, v.cfg)
     [] v.proto = "tls" -> TLSRef(v.msg, v.cfg)
+    [] v.proto = "winbox" -> WBRef(v.msg, v.cfg)
     [] OTHER -> "?"
 
 \* stream protocols: the verdict-over-prefixes rules of C06 apply
@@ -301,7 +338,10 @@ Final(o) == o.verdicts[Len(o.verdicts)].v
 V1(v, o) == LET r == Ref(v)
                 f == VerdictAt(o, o.msglen) IN
             CASE r = "Y" -> f = "Y"
-              [] r = "N" -> f # "Y" /\ Final(o) # "Y"
+              \* must not match: neither whole, nor with what follows it, nor - for stream protocols -
+              \* on any fragment of it (the router would run the route on the first "yes")
+              [] r = "N" -> /\ f # "Y" /\ Final(o) # "Y"
+                            /\ IsStream(v) => \A i \in DOMAIN o.verdicts : o.verdicts[i].n <= o.msglen => o.verdicts[i].v # "Y"
               [] r = "M" -> f = "M" \/ v.trail > 0
               [] r = "X" -> TRUE
               [] OTHER -> FALSE
